@@ -33,3 +33,107 @@ func verifC06Convert() {
 	}
 	vReach("end")
 }
+
+func init() {
+	verifRegister("verifC06OptionalDeep", verifC06OptionalDeep)
+}
+
+// c06OptObj: an object type with optional attributes; variants nest a second annotated object under an attribute and
+// put a placeholder beside it.
+func c06OptObj(tag string) cty.Type {
+	inner := cty.ObjectWithOptionalAttrs(map[string]cty.Type{"a": cty.String, "b": cty.String}, []string{"b"})
+	switch vChoice(tag+"-opt", 4) {
+	case 0:
+		return inner
+	case 1:
+		return cty.ObjectWithOptionalAttrs(map[string]cty.Type{"a": cty.DynamicPseudoType, "b": cty.String}, []string{"b"})
+	case 2:
+		return cty.ObjectWithOptionalAttrs(map[string]cty.Type{"a": cty.String, "p": inner}, []string{"p"})
+	}
+	return cty.ObjectWithOptionalAttrs(map[string]cty.Type{"a": cty.DynamicPseudoType, "p": cty.List(inner)}, []string{"p"})
+}
+
+// c06DeepTarget: the annotated object under collections, tuples and plain objects (where a shallow strip misses it).
+func c06DeepTarget(tag string) cty.Type {
+	o := c06OptObj(tag)
+	switch vChoice(tag+"-wrap", 9) {
+	case 0:
+		return cty.List(o)
+	case 1:
+		return cty.Set(o)
+	case 2:
+		return cty.Map(o)
+	case 3:
+		return cty.Tuple([]cty.Type{o})
+	case 4:
+		return cty.Object(map[string]cty.Type{"x": cty.List(o)})
+	case 5:
+		return cty.Object(map[string]cty.Type{"x": cty.Map(cty.List(o))})
+	case 6:
+		return cty.Object(map[string]cty.Type{"x": cty.Tuple([]cty.Type{o}), "y": cty.String})
+	case 7:
+		return cty.List(cty.Object(map[string]cty.Type{"x": cty.Set(o)}))
+	}
+	return o
+}
+
+// verifC06OptionalDeep: conversions toward types that carry optional-attribute annotations at depth, from the inputs
+// for which the result type is not inferred from converted members (dynamic values, nulls, unknowns, empty
+// collections / tuples / objects, absent attributes): the result's type never carries an annotation, equals the
+// type obtained from a non-empty input where one exists, and converting again changes nothing.
+func verifC06OptionalDeep() {
+	want := c06DeepTarget("w")
+	plain := cty.Object(map[string]cty.Type{"a": cty.String})
+	var in cty.Value
+	switch vChoice("in", 16) {
+	case 0:
+		in = cty.DynamicVal
+	case 1:
+		in = cty.NullVal(cty.DynamicPseudoType)
+	case 2:
+		in = cty.EmptyTupleVal
+	case 3:
+		in = cty.EmptyObjectVal
+	case 4:
+		in = cty.ListValEmpty(plain)
+	case 5:
+		in = cty.ListValEmpty(cty.DynamicPseudoType)
+	case 6:
+		in = cty.SetValEmpty(plain)
+	case 7:
+		in = cty.MapValEmpty(plain)
+	case 8:
+		in = cty.MapValEmpty(cty.DynamicPseudoType)
+	case 9:
+		in = cty.SetVal([]cty.Value{cty.ObjectVal(map[string]cty.Value{"a": cty.StringVal("s")}), cty.UnknownVal(plain)})
+	case 10:
+		in = cty.NullVal(cty.List(plain))
+	case 11:
+		in = cty.UnknownVal(cty.Map(plain))
+	case 12:
+		in = cty.ObjectVal(map[string]cty.Value{"x": cty.EmptyTupleVal, "y": cty.StringVal("s")})
+	case 13:
+		in = cty.ObjectVal(map[string]cty.Value{"x": cty.ListValEmpty(plain), "y": cty.StringVal("s")})
+	case 14:
+		in = cty.ObjectVal(map[string]cty.Value{"x": cty.MapValEmpty(cty.List(plain)), "a": cty.StringVal("s")})
+	default:
+		in = cty.ListVal([]cty.Value{cty.ObjectVal(map[string]cty.Value{"a": cty.StringVal("s")})})
+	}
+	var r cty.Value
+	var err error
+	p := vExpectPanic(func() { r, err = Convert(in, want) })
+	vAssert("conversion-does-not-panic", !p)
+	if p || err != nil {
+		vReach("end-refused")
+		return
+	}
+	why := cty.VerifWellFormed(r)
+	if why != "" {
+		vLog("in=%#v want=%#v r=%#v: %s", in, want, r, why)
+	}
+	vAssert("result-type-carries-no-optional-annotation", cvNoOptional(r.Type()) && why == "")
+	var r2 cty.Value
+	p = vExpectPanic(func() { r2, err = Convert(r, want) })
+	vAssert("converting-again-changes-nothing", !p && err == nil && r2.Type().Equals(r.Type()))
+	vReach("end")
+}
